@@ -591,4 +591,37 @@ example :
   decide
 
 
+/-! ### Finalised (scaled) results (round 4) -/
+
+/-- Regenerated: finalisation does not truncate any of the population series (the series are replaced by the product
+    with `pop_scale`, or they are not integer arrays). -/
+theorem C10_finalize_exact :
+    seriesTruncates "n_alive" = false ∧ seriesTruncates "new_deaths" = false ∧ seriesTruncates "cum_deaths" = false ∧
+    (∀ r ∈ Gen.simResults, r.2.2 = "True") ∧ ["n_alive", "new_deaths", "cum_deaths"].all (fun n => Gen.simResults.any (fun r => r.1 == n)) = true := by
+  decide
+
+/-- **The recorded balance holds in recorded units.**  For every scale factor `s` (integer, dyadic or not, below or above
+    one) and every step of the loop: the finalised `n_alive[t]`, i.e. the count in people, equals the finalised value of
+    the previous count plus `s` times the agents created minus `s` times the agents that died — the per-step statement of
+    the property on the published series. -/
+theorem C10_step_balance_recorded (s : Rat) (p : People) (inv : Inv p) (pre post : List Op)
+    (hpre : ∀ op ∈ pre, IsModuleOp op = true) (hpost : ∀ op ∈ post, IsModuleOp op = true)
+    (hv : ValidRun p (stepOps pre post)) :
+    ∃ c, (p.ti, finalizeVal (seriesTruncates "n_alive") s c) ∈ finalizeSeries "n_alive" s (run p (stepOps pre post)).nAlive ∧
+      finalizeVal (seriesTruncates "n_alive") s c + (diedNow (run p pre) : Rat) * s =
+        finalizeVal (seriesTruncates "n_alive") s (aliveCount p) + (created pre : Rat) * s := by
+  obtain ⟨c, hmem, hbal, _⟩ := C10_step_balance p inv pre post hpre hpost hv
+  refine ⟨c, ?_, ?_⟩
+  · exact List.mem_map.mpr ⟨(p.ti, c), hmem, rfl⟩
+  · simp only [C10_finalize_exact.1, finalizeVal, Bool.false_eq_true, ↓reduceIte]
+    exact scaled_balance s _ _ _ _ hbal
+
+/-- why the mode matters (kernel-checked): 118 alive, 2 born, 7 die, 113 alive, 2.5 people per agent.  Exact scaling
+    balances (282.5 + 17.5 = 295 + 5); a series truncated at finalisation does not (282 + 17.5 ≠ 295 + 5). -/
+example :
+    finalizeVal false (5/2) 113 + (7 : Rat) * (5/2) = finalizeVal false (5/2) 118 + (2 : Rat) * (5/2) ∧
+    finalizeVal true (5/2) 113 = 282 ∧
+    finalizeVal true (5/2) 113 + (7 : Rat) * (5/2) ≠ finalizeVal true (5/2) 118 + (2 : Rat) * (5/2) := by
+  decide +kernel
+
 end StarsimModel.C10
